@@ -40,3 +40,15 @@ M("c17_eof_returns_short", ["C17"], ("Pyro5/socketutil.py", "                if 
 M("c17_partialdata_dropped", ["C17"], ("Pyro5/socketutil.py", "                    err.partialData = data  # store the message that was received until now\n", ""))
 M("c17_waitall_chunk_dropped_on_retry", ["C17"], ("Pyro5/socketutil.py", "                    msglen = len(chunk)\n                    data.extend(chunk)\n                    break", "                    msglen = len(chunk)\n                    data.extend(chunk)\n                    if msglen == 1 and size > 2:\n                        msglen = 0; del data[:]\n                    break"))
 M("c17_timeout_as_closed", ["C17"], ("Pyro5/socketutil.py", "            except socket.timeout:\n                raise TimeoutError(\"receiving: timeout\")\n            except socket.error as x:\n                err = getattr(x, \"errno\", x.args[0])\n                if err not in ERRNO_RETRIES:\n                    raise ConnectionClosedError(\"receiving: connection lost: \" + str(x))\n                time.sleep(next(delays))  # a slight delay to wait before retrying\n    except socket.timeout:", "            except socket.error as x:\n                err = getattr(x, \"errno\", x.args[0])\n                if err not in ERRNO_RETRIES:\n                    raise ConnectionClosedError(\"receiving: connection lost: \" + str(x))\n                time.sleep(next(delays))  # a slight delay to wait before retrying\n    except socket.timeout:"))
+
+# ---------------------------------------------------------------- C04
+M("c04_dunder_and_any_module", ["C04"],
+  ("Pyro5/serializers.py", "        if \"__\" in classname:\n            raise errors.SecurityError(\"refused to deserialize types with double underscores in their name: \" + classname)\n", ""),
+  ("Pyro5/serializers.py", "            if namespace in (\"builtins\", \"exceptions\"):\n                exceptiontype = getattr(builtins, short_classname)\n                if issubclass(exceptiontype, BaseException):", "            if namespace in (\"builtins\", \"exceptions\") or namespace in sys.modules:\n                exceptiontype = getattr(sys.modules.get(namespace, builtins) if namespace != 'exceptions' else builtins, short_classname)\n                if callable(exceptiontype):"),
+  ("Pyro5/serializers.py", "import array\n", "import array\nimport sys\n"))
+# (removing only the "__" refusal is an equivalent mutant: every dunder tag is still rejected by the issubclass guards)
+M("c04_issubclass_guard_removed", ["C04"], ("Pyro5/serializers.py", "                exceptiontype = getattr(builtins, short_classname)\n                if issubclass(exceptiontype, BaseException):\n                    return", "                exceptiontype = getattr(builtins, short_classname)\n                if isinstance(exceptiontype, type):\n                    return"))
+M("c04_exception_flag_not_needed", ["C04"], ("Pyro5/serializers.py", "        elif data.get(\"__exception__\", False):\n", "        elif True:\n"))
+M("c04_importlib_fallback", ["C04"], ("Pyro5/serializers.py", "        log.warning(\"unsupported serialized class: \" + classname)\n", "        if classname.count('.') >= 1 and data.get('__exception__'):\n            import importlib\n            mod, _, cn = classname.rpartition('.')\n            try:\n                t = getattr(importlib.import_module(mod), cn)\n                if isinstance(t, type) and issubclass(t, BaseException):\n                    return SerializerBase.make_exception(t, data)\n            except ImportError:\n                pass\n        log.warning(\"unsupported serialized class: \" + classname)\n"))
+M("c04_sqlite_any_name", ["C04"], ("Pyro5/serializers.py", "            elif namespace == \"sqlite3\" and short_classname.endswith(\"Error\"):\n                import sqlite3\n                exceptiontype = getattr(sqlite3, short_classname)\n                if issubclass(exceptiontype, BaseException):", "            elif namespace == \"sqlite3\":\n                import sqlite3\n                exceptiontype = getattr(sqlite3, short_classname)\n                if isinstance(exceptiontype, type):"))
+M("c04_serpent_float_eval", ["C04"], ("Pyro5/serializers.py", "            return float(data[\"value\"])     # serpent encodes", "            return eval(data[\"value\"]) if isinstance(data[\"value\"], str) and '(' in data[\"value\"] else float(data[\"value\"])     # serpent encodes"))
